@@ -13,7 +13,7 @@ from __future__ import annotations
 import ast
 
 from harness.common import TranslateError, src_text, ast_digest, SRC
-from translate import c08_keys, c08_norm
+from translate import c08_keys, c08_norm, c08_parse
 
 KINDS = {'ent_id': 'KEnt', 'solid_id': 'KSolid', 'face_id': 'KFace', 'group_id': 'KGroup', 'vis_id': 'KVis',
          'node_id': 'KNode'}
@@ -197,6 +197,17 @@ def translate() -> tuple[str, dict]:
     key_rows, key_exposed, key_reads = c08_keys.keys_census(key_trees)
     node_registers = c08_keys.node_setitem_registers(trees['vmf.py'])
     fx_rows, fx_exposed, fx_reads = c08_keys.fixup_census(trees)
+    # round 4: VMF.parse as a program (the steps that touch entity / brush / face IDs, in source order)
+    parse_prog, parse_side = c08_parse.parse_program(trees['vmf.py'])
+    # round 4: constructor calls outside copy() (make_prism-style helpers, parse classmethods, readers in other modules)
+    ctor_trees = dict(trees)
+    for path in sorted(SRC.rglob('*.py')):
+        rel = path.relative_to(SRC).as_posix()
+        text = path.read_text(encoding='utf8')
+        if rel not in ctor_trees and any(c + '(' in text for c in c08_parse.ID_CLASSES):
+            ctor_trees[rel] = ast.parse(text)
+    ctor_rows = c08_parse.ctor_census(ctor_trees)
+    man_ok, man_side = c08_parse.manager_choice(trees['vmf.py'])
     lines = [
         '(* GENERATED by translate/c08_sites.py from /repo/src/srctools/vmf.py, instancing.py. Do not edit. *)',
         'From Coq Require Import ZArith List String.', 'Import ListNotations.', 'Open Scope string_scope.',
@@ -238,6 +249,14 @@ def translate() -> tuple[str, dict]:
         'Definition fixup_write_sites : list (string * string * kwsite * bool) := [',
         ';\n'.join('  ("%s", "%s", %s, %s)' % (f, d.replace('"', '""'), c, 'true' if ok else 'false') for f, d, c, ok, _ in fx_rows),
         '].',
+        '(* the steps of VMF.parse that touch entity / brush / face IDs, in source order (interpreted by SM/IdNest.v TParse) *)',
+        '(* constructor calls of ID-bearing classes outside copy(): is the map a parameter / self / a fresh VMF(), the same for the whole function? *)',
+        'Definition helper_ctor_sites : list (string * string * bool) := [',
+        ';\n'.join('  ("%s", "%s(%s)", %s)' % (w, c, a.replace('"', '""'), 'true' if ok else 'false') for w, c, a, ok, _ in ctor_rows),
+        '].',
+        f'Definition managers_are_idman_unless_preserve_ids : bool := {"true" if man_ok else "false"}.',
+        'Inductive parse_step := GPPlaceholder | GPWorld | GPDropPlaceholder | GPEntities | GPReleasePlaceholder.',
+        'Definition parse_steps : list parse_step := [' + '; '.join(parse_prog) + '].',
         '',
     ]
     side.update(releases=[list(r) for r in releases], acquires=[list(a) for a in acquires],
@@ -248,6 +267,9 @@ def translate() -> tuple[str, dict]:
                 node_setitem_registers=node_registers,
                 fixup_write_sites=[list(r) for r in fx_rows], fixup_exposed=fx_exposed, fixup_read_sites=fx_reads,
                 node_copy_registers=all(ok for _, _, c, ok, _ in key_rows if c == 'KwCtor'))
+    side.update(parse_side)
+    side.update(man_side)
+    side['helper_ctor_sites'] = [list(r) for r in ctor_rows]
     return '\n'.join(lines), side
 
 
